@@ -7,6 +7,8 @@ from .model import AnalysisError, src, walk_own
 MUTATORS = {'append', 'extend', 'insert', 'pop', 'remove', 'sort', 'clear', 'reverse', 'update', 'add', 'discard', 'setdefault', 'popitem',
             'difference_update', 'intersection_update', 'symmetric_difference_update', 'appendleft', 'popleft', '__setitem__', '__delitem__'}
 
+SEQ_MUTATORS = {'append', 'extend', 'insert', 'pop', 'remove', 'sort', 'reverse', 'appendleft', 'popleft'}
+
 ASDL_FIELDS = set()
 for _c in vars(ast).values():
     if isinstance(_c, type) and issubclass(_c, ast.AST):
@@ -319,7 +321,7 @@ class CallGraph(object):
 
 
 class Summary(object):
-    __slots__ = ('asdl', 'builds', 'ann_w', 'ann_r', 'ann_add', 'mut', 'globals_w', 'sites')
+    __slots__ = ('asdl', 'builds', 'ann_w', 'ann_r', 'ann_add', 'mut', 'globals_w', 'sites', 'seq_add')
 
     def __init__(self):
         self.asdl = set()       # ASDL field names stored / mutated on non-self objects
@@ -329,11 +331,12 @@ class Summary(object):
         self.ann_r = set()      # non-ASDL attributes read on non-self objects
         self.mut = set()        # own parameters mutated in place (possibly through callees)
         self.globals_w = set()  # module/class level names written
+        self.seq_add = set()    # attributes holding ordered containers (lists) that get elements appended / inserted / removed
         self.sites = {}         # effect -> [(qual, lineno, text)]
 
     def merge(self, o):
         ch = False
-        for a in ('asdl', 'builds', 'ann_w', 'ann_r', 'ann_add', 'globals_w'):
+        for a in ('asdl', 'builds', 'ann_w', 'ann_r', 'ann_add', 'globals_w', 'seq_add'):
             s, t = getattr(self, a), getattr(o, a)
             if not t <= s:
                 s |= t
@@ -469,6 +472,9 @@ class Effects(object):
                         p, _ = root_param(tgt)
                         if p is not None:
                             S.mut.add(p)
+                if isinstance(f, ast.Attribute) and f.attr in SEQ_MUTATORS and isinstance(f.value, ast.Attribute):
+                    S.seq_add.add(f.value.attr)
+                    site('seq:' + f.value.attr, n)
                 if isinstance(f, ast.Attribute) and f.attr in MUTATORS:
                     p, path = root_param(f.value)
                     if p is not None and not path:
@@ -585,7 +591,7 @@ class Effects(object):
         """Summaries for everything reachable from entries, iterated to a fix-point (recursion)."""
         for _ in range(6):
             self.memo = {k: v for k, v in self.memo.items()}
-            before = {k: (len(v.asdl), len(v.ann_w), len(v.ann_r), len(v.mut), len(v.builds), len(v.ann_add), len(v.globals_w)) for k, v in self.memo.items()}
+            before = {k: (len(v.asdl), len(v.ann_w), len(v.ann_r), len(v.mut), len(v.builds), len(v.ann_add), len(v.globals_w), len(v.seq_add)) for k, v in self.memo.items()}
             old = self.memo
             self.memo = {}
             for e in entries:
@@ -595,7 +601,7 @@ class Effects(object):
                 if k in self.memo:
                     self.memo[k].merge(v)
                     self.memo[k].mut |= v.mut
-            after = {k: (len(v.asdl), len(v.ann_w), len(v.ann_r), len(v.mut), len(v.builds), len(v.ann_add), len(v.globals_w)) for k, v in self.memo.items()}
+            after = {k: (len(v.asdl), len(v.ann_w), len(v.ann_r), len(v.mut), len(v.builds), len(v.ann_add), len(v.globals_w), len(v.seq_add)) for k, v in self.memo.items()}
             if before == after:
                 break
         return self.memo
